@@ -36,6 +36,11 @@ def tiny(rng):
         clauses.append(c)
     if clauses and rng.random() < 0.15:
         clauses.append(list(rng.choice(clauses)))  # duplicate clause
+    r = rng.random()
+    if r < 0.01:
+        return [[] for _ in range(rng.randint(1, 2))]  # only empty clauses: unsatisfiable, no variable at all
+    if r < 0.03:
+        clauses.insert(rng.randrange(len(clauses) + 1), [])  # an empty clause among others
     return clauses
 
 
